@@ -898,7 +898,12 @@ class MemorizedFunc(Logger):
         if self.mmap_mode is not None:
             # Memmap the output at the first call to be consistent with
             # later calls
-            output = self._load_item(call_id, metadata)
+            try:
+                output = self._load_item(call_id, metadata)
+            except Exception:
+                # The entry could not be stored, or another user of the
+                # cache has already cleared it: return the computed value.
+                pass
         return output, metadata
 
     def _persist_input(self, duration, call_id, args, kwargs, this_duration_limit=0.5):
